@@ -56,7 +56,12 @@ def main():
             print(p, "rc=%d" % r.returncode, "%.0fs" % (time.time() - t))
             for l in lines[:6]:
                 print("   ", l[:300])
-        json.dump(out, open(os.path.join(sd, "check_result.json"), "w"), indent=1)
+        crp = os.path.join(sd, "check_result.json")
+        if os.path.exists(crp):      # keep the results of checks not re-run this time
+            old = json.load(open(crp))
+            for k, v in old.items():
+                out.setdefault(k, v)
+        json.dump(out, open(crp, "w"), indent=1)
         return 0
     finally:
         subprocess.run(["git", "-C", "/repo", "worktree", "remove", "--force", wt], capture_output=True)
